@@ -1,11 +1,12 @@
 (* C11  Priority rules order candidates as documented and allocation never
    inverts them.  Statements only; proofs in Proofs/SortProof.v,
    Proofs/C11Proof.v, Proofs/C06Max.v.
-   PARTIAL: the allocation clause (no inversion) is proved for tasks that need
-   no facility; for facility tasks it is searched by the oracle
-   (harness/props/c11.py inversions). *)
+   The allocation clause (no inversion) is proved for tasks that need no
+   facility and, pairwise, for tasks that need one (relative to the workplace
+   of the component when the task was served); the oracle searches inversions
+   on the implementation (harness/props/c11.py). *)
 From Coq Require Import List ZArith QArith Bool Arith Permutation Sorted.
-From PV Require Import Model.Types Model.Sim Proofs.Base Proofs.SortProof Proofs.C11Proof Proofs.C06Max.
+From PV Require Import Model.Types Model.Sim Proofs.Base Proofs.SortProof Proofs.C11Proof Proofs.C06Max Proofs.C06Fac.
 Import ListNotations.
 
 (* sorted_by le key l : adjacent (indeed all ordered pairs of) elements are in
@@ -88,6 +89,24 @@ Proof.
   unfold eligible. rewrite Hs, Htg. reflexivity.
 Qed.
 Print Assumptions C11_no_priority_inversion.
+
+(* the same for earlier tasks that need a facility: when t is handed over, an
+   earlier facility task t' (served at workplace p) can take no pair of a FREE
+   eligible facility of p and an eligible worker of the free list *)
+Theorem C11_no_priority_inversion_facility : forall c l, NoDup l -> forall l1 t l2, l = l1 ++ t :: l2 ->
+  forall l1a t' l1b, l1 = l1a ++ t' :: l1b -> t_auto c t' = false -> t_needfac c t' = true ->
+  forall s free p, served_at c l1a s free t' = Some p ->
+  let acc := fold_left (alloc_task c) l1 (s, free, []) in
+  forall f w, In f (wp_facs c p) -> rst (fd (fst (fst acc)) f) = RFree -> has_fskill c f t' = true -> f_targets c f t' = true ->
+  In w (snd (fst acc)) -> has_wskill c w t' = true -> w_targets c w t' = true ->
+  can_add c (fst (fst acc)) t' w (Some f) = false.
+Proof.
+  intros c l Hnd l1 t l2 El l1a t' l1b E1 Ha Hn s free p Hp acc f w Hf Hfree Hfs Hft Hw Hws Hwt.
+  apply (greedy_prefix_fac c l Hnd l1 t l2 El l1a t' l1b E1 Ha Hn s free p Hp f w Hf Hfree); try assumption.
+  - unfold eligible_f. rewrite Hfs, Hft. reflexivity.
+  - unfold eligible. rewrite Hws, Hwt. reflexivity.
+Qed.
+Print Assumptions C11_no_priority_inversion_facility.
 
 Example C11_example :
   stable_sort nat (fun x y => Nat.leb (x / 10) (y / 10)) [31; 12; 35; 11; 20; 19] = [12; 11; 19; 20; 31; 35].
